@@ -24,6 +24,12 @@ POSITIONS = [
     ("dict_key_times", ["push", {"@ref": {"times": 2}}, "@other"], ["push", {"mov": {"times": 2}}, "ret"], {"name": "@ref", "pattern": "mov"}),
     ("in_operator", ["push", {"$or": ["@ref", "add"]}, "@other"], ["push", {"$or": ["mov", "add"]}, "ret"], {"name": "@ref", "pattern": "mov"}),
     ("in_not", ["push", {"$not": ["@ref"]}, "@other"], ["push", {"$not": ["mov"]}, "ret"], {"name": "@ref", "pattern": "mov"}),
+    # the same positions inside an item / group that carries a SIBLING `times` key (mapping with two keys)
+    ("in_operator_sibling_times", ["push", {"$or": ["@ref", "add"], "times": {"min": 1, "max": 2}}, "@other"], ["push", {"$or": ["mov", "add"], "times": {"min": 1, "max": 2}}, "ret"], {"name": "@ref", "pattern": "mov"}),
+    ("in_and_sibling_times", ["push", {"$and": ["add", "@ref"], "times": 2}, "@other"], ["push", {"$and": ["add", "mov"], "times": 2}, "ret"], {"name": "@ref", "pattern": "mov"}),
+    ("dict_key_in_operator_sibling_times", ["push", {"$or": [{"@ref": {"times": 1}}, "add"], "times": 2}, "@other"], ["push", {"$or": [{"mov": {"times": 1}}, "add"], "times": 2}, "ret"], {"name": "@ref", "pattern": "mov"}),
+    ("operand_sibling_times", ["push", {"mov": ["@ref", "b"], "times": 2}, "@other"], ["push", {"mov": ["a", "b"], "times": 2}, "ret"], {"name": "@ref", "pattern": "a"}),
+    ("in_not_sibling_times", ["push", {"$not": ["@ref"], "times": {"min": 1, "max": 2}}, "@other"], ["push", {"$not": ["mov"], "times": {"min": 1, "max": 2}}, "ret"], {"name": "@ref", "pattern": "mov"}),
     ("substring", ["push", "x@refx", "@other"], ["push", "xmovx", "ret"], {"name": "@ref", "pattern": "mov"}),
     ("param_call", ["push", {"@ref": None, "p-arg": "a"}, "@other"], ["push", {"mov": ["a", "a"]}, "ret"], {"name": "@ref", "args": ["p-arg"], "pattern": [{"mov": ["p-arg", "p-arg"]}]}),
 ]
